@@ -46,7 +46,18 @@ func check(c *rig.Ctx, name string, s emu.Scenario, caseID string) {
 		return
 	}
 	t1 := emu.Run(s, path)
-	t2 := emu.Run(s, path)
+	// the second run is perturbed on the host side: the audio consumer is late for a while
+	// (the sample queue fills up), later the emulator's own goroutine pauses (the queue drains)
+	s2 := s
+	if s.Audio {
+		s2.ConsumerStalls = map[int64]int{2: 25, 3: 25, 40: 10, 90: 25}
+		s2.ProducerStalls = map[int]int{}
+		for f := 1; f <= s.Frames; f++ {
+			s2.ProducerStalls[f] = 12
+		}
+		c.Count("scenarios_with_host_stalls", 1)
+	}
+	t2 := emu.Run(s2, path)
 	cfg := fmt.Sprintf("video=%v audio=%v frames=%d keys=%d", s.Video, s.Audio, s.Frames, len(s.Keys))
 	if d := emu.Diff(t1, t2); d != "" {
 		c.Violate("same-process-"+strings.SplitN(d, " ", 2)[0], fmt.Sprintf("%s (%s): two runs in one process differ: %s", name, cfg, d), map[string]any{"scenario": s, "name": name})
